@@ -98,7 +98,18 @@ def r1(k: Kit) -> None:
                     return False
             return None
         setters += 1
+
+        def accum(n: Node) -> bool:
+            # self._options[option] = <old list> + <new values>
+            v = n.ast.value
+            if not (isinstance(v, ast.BinOp) and isinstance(v.op, ast.Add)):
+                return False
+            return 'self._options[option]' in unparse(v.left) and \
+                hn.startswith('_append_')
+        acc_stores = [n for n in stores if accum(n)]
         for n in stores:
+            if n in acc_stores:
+                continue
             w = g.guarded_by(n.id, unset)
             rep.check(w is None, 'C18.R1', key(fi, 'first value wins'),
                       'store only when the option is not set yet',
@@ -113,6 +124,7 @@ def r1(k: Kit) -> None:
             def isset(n: Node) -> Optional[bool]:
                 r = unset(n)
                 return None if r is None else (not r)
+            ext = ext + acc_stores
             oke = bool(ext) and all(g.guarded_by(n.id, isset) is None
                                     for n in ext)
             rep.check(oke, 'C18.R1', key(fi, 'accumulates'),
@@ -635,6 +647,148 @@ def canonicalize_rules(k: Kit, rule: str) -> None:
                   g.describe_path(w1 or w2) if (w1 or w2) else None)
 
 
+def r10(k: Kit) -> None:
+    """Keyword arguments are compared case-insensitively."""
+    rep = k.rep
+    rep.rule('C18.R10', 'option setters of SSHConfig: wherever an argument '
+             'is compared with keyword constants (yes / no / true / false / '
+             'none / ask / ...), the compared value has been through '
+             '.lower() - ssh accepts "ForwardAgent No"; read as a path it '
+             'would switch forwarding on')
+    from ..flow import expr_sources
+    n = 0
+    for fi in k.idx.iter_funcs(['config']):
+        if fi.cls is None or not fi.name.startswith('_set_'):
+            continue
+        g = k.cfg(fi)
+        rd = k.rd(fi)
+        for a in g.nodes:
+            e = a.ast
+            if a.kind != 'atom' or not isinstance(e, ast.Compare) or \
+                    len(e.ops) != 1:
+                continue
+            cmp = e.comparators[0]
+            consts = []
+            if isinstance(cmp, ast.Constant) and isinstance(cmp.value, str):
+                consts = [cmp.value]
+            elif isinstance(cmp, (ast.Tuple, ast.Set, ast.List)) and \
+                    cmp.elts and all(isinstance(x, ast.Constant) and
+                                     isinstance(x.value, str)
+                                     for x in cmp.elts):
+                consts = [x.value for x in cmp.elts]
+            if not consts or not all(c.isalpha() and c.islower()
+                                     for c in consts):
+                continue
+            leaves, free = expr_sources(g, rd, a.id, e.left)
+            exprs = [e.left] + list(leaves)
+            if not any('args' in names_read(x) for x in exprs):
+                continue
+            n += 1
+            low = any(is_call(c, 'lower') or is_call(c, 'casefold')
+                      for x in exprs for c in ast.walk(x))
+            rep.check(low, 'C18.R10',
+                      key(fi, f'{norm(e)[:50]} ignores case'),
+                      'compared value is lower-cased',
+                      f'`{norm(e)}` compares the argument as written: '
+                      '"No", "FALSE", "None" are not recognised as the '
+                      'keyword and fall through to the other reading of '
+                      'the option (ForwardAgent No -> agent socket path '
+                      '"No", forwarding on)', k.loc(fi, a))
+    rep.floor('C18.R10', 'keyword comparisons in setters', n, 5)
+
+
+def r11(k: Kit) -> None:
+    """The second / final pass is keyed by the name the caller gave."""
+    rep = k.rep
+    rep.rule('C18.R11', 'connection._connect: the host handed to the '
+             'canonical / final re-evaluation of the config '
+             '(options.update(host=..., reload=True)) is the canonicalised '
+             'name or else the name the caller gave (options.orig_host) - '
+             'never options.host, which the first pass may already have '
+             'replaced by HostName, so that "Host alias" blocks would stop '
+             'applying once the file contains Match final')
+    from ..flow import expr_sources
+    fi = k.func('connection._connect')
+    g = k.cfg(fi)
+    rd = k.rd(fi)
+    ups = [(nd, c) for nd, c in k.calls_named(fi, 'update', 'options')
+           if any(kw.arg == 'reload' for kw in c.keywords)]
+    rep.floor('C18.R11', 'config re-evaluations', len(ups), 1)
+    for nd, c in ups:
+        hv = [kw.value for kw in c.keywords if kw.arg == 'host']
+        bad = None
+        if not hv:
+            bad = 'no host= argument'
+        else:
+            leaves, free = expr_sources(g, rd, nd.id, hv[0])
+            for e in [hv[0]] + list(leaves):
+                for x in ast.walk(e):
+                    d = dotted(x) if isinstance(x, ast.Attribute) else None
+                    if d and d.startswith('options.') and \
+                            d != 'options.orig_host':
+                        bad = bad or d
+        rep.check(bad is None, 'C18.R11',
+                  key(fi, 'final pass uses the original host'),
+                  'host = canonical name or options.orig_host',
+                  f'the re-evaluation is keyed by `{bad}`: with '
+                  '"Host alias / HostName real.example.com" and a "Match '
+                  'final" line anywhere, the final pass looks up '
+                  'real.example.com and the alias block (User, Port, '
+                  'IdentityFile ...) no longer applies', k.loc(fi, nd))
+
+
+def r12(k: Kit) -> None:
+    """Accumulating options never write into an inherited list."""
+    rep = k.rep
+    rep.rule('C18.R12', 'SSHConfig: a new config object starts from a '
+             'shallow copy of the previous options (dict.copy()), so list '
+             'values are shared with the object it was derived from; the '
+             'accumulating setters therefore build a new list '
+             '(self._options[o] = old + new) and never append / extend the '
+             'stored one in place - otherwise deriving options changes the '
+             'parent and the canonical / final re-evaluation, which starts '
+             'from the saved previous options, sees its own first-pass '
+             'additions and accumulates them twice')
+    cls = k.idx.cls('config.SSHConfig')
+    shallow = 0
+    for nm in ('__init__', 'get_options'):
+        fi = cls.methods.get(nm)
+        if fi is None:
+            continue
+        for c in ast.walk(fi.node):
+            if is_call(c, 'copy') and not c.args and (
+                    dotted(c.func.value) or '').startswith('self._'):
+                shallow += 1
+    rep.count('instances.shallow_option_copies', shallow)
+    n = 0
+    for fi in k.idx.iter_funcs(['config']):
+        if fi.cls is None:
+            continue
+        for c in ast.walk(fi.node):
+            if not (isinstance(c, ast.Call) and
+                    isinstance(c.func, ast.Attribute) and
+                    c.func.attr in ('append', 'extend', 'insert')):
+                continue
+            recv = c.func.value
+            if is_call(recv, 'cast') and len(recv.args) == 2:
+                recv = recv.args[1]
+            if isinstance(recv, ast.Subscript) and \
+                    dotted(recv.value) == 'self._options':
+                n += 1
+                rep.check(shallow == 0, 'C18.R12',
+                          key(fi, 'no in-place accumulation'),
+                          'option lists are rebound, not mutated',
+                          f'`{norm(c)[:70]}` extends a list that the '
+                          'options this config was derived from still '
+                          'hold: SSHClientConnectionOptions(parent, '
+                          'config=[B]) three times leaves parent.send_env '
+                          '== [LANG, FOO, FOO, FOO]', fi.loc(c))
+    if n == 0:
+        rep.ok('C18.R12', 'config.SSHConfig|no in-place accumulation',
+               'no append / extend on self._options[...]')
+    rep.floor('C18.R12', 'shallow copies of the options', shallow, 1)
+
+
 def run(idx, rep, tier):
     k = Kit(idx, rep)
     rep.assumptions += NOT_DECIDED
@@ -652,6 +806,9 @@ def run(idx, rep, tier):
     r5(k)
     r6(k)
     r4(k)
+    r10(k)
+    r11(k)
+    r12(k)
     # C18.R7: Host lines and Match criteria are pattern lists: their
     # semantics (some positive pattern matches, no negated one does - a list
     # of negations alone matches nothing) and the wildcard rules are C17.R1
